@@ -171,6 +171,20 @@ def classify(pid, res):
         return True, "an extraction reported success but there is no file at the destination"
     if ci[:2] == ("err", "Integrity") and obs.get("checked") and obs.get("dest_exists") and (not obs.get("dest_existed") or obs.get("dest_changed")):
         return True, "a checked extraction failed verification but left / replaced a file at the destination"
+    if fail["op"]["op"] == "lcommit" and ci[0] == "ok":
+        # C19 direct oracle: the linker's declared size / integrity against the target's bytes at open time
+        lo = next((o for o in reversed(prog[: fail["step"]]) if o["op"] == "lopen" and o.get("l") == fail["op"]["l"]), None)
+        if lo is not None:
+            i = prog.index(lo)
+            tb = next((bytes.fromhex(o["data"]) for o in reversed(prog[:i]) if o["op"] == "damage" and o.get("kind") == "set" and o.get("loc") == "e:" + lo["target"]), None)
+            if tb is not None and "size" in lo and lo["size"] != len(tb):
+                return True, f"a linker committed successfully although the declared size {lo['size']} differs from the target's {len(tb)} bytes"
+            if tb is not None and "sri" in lo:
+                hs = oracle.parse_sri(lo["sri"]) or []
+                import base64
+                from cc import hashes as _h
+                if hs and not any(d == base64.b64encode(_h.digest(a, tb)).decode() for a, d in hs):
+                    return True, "a linker committed successfully although the declared integrity does not match the target's bytes"
     rc = oracle.RefCache()
     exp = None
     times = {}
